@@ -46,6 +46,7 @@ def s1_chunk_bounds(ctx):
     fi = ctx.repo.func(A, 'chunk_bounds')
     n, cs, ov = (T('param', p) for p in fi.params[:3])
     I = SymInterp(ctx.repo, unroll=ctx.bound(2, 3), pos=[cs, T('Sub', cs, ov)], nonneg=[ov, n])
+    I.range_loops = True
     outs = I.run(fi)
     ctx.analysed['paths'] += len(outs)
     nf = I.nf
